@@ -1436,9 +1436,10 @@ Proof.
   apply emits_good_one. split; exact I.
 Qed.
 
-Lemma set_diti_good w i w' e : (0 <= i)%Z -> set_diti w i = (w', e) -> emits_good w w'.
+Lemma set_diti_good w i w' e : set_diti w i = (w', e) -> emits_good w w'.
 Proof.
-  unfold set_diti. intros Hi H.
+  unfold set_diti. intro H.
+  destruct (i <? 0)%Z eqn:Hi; [injection H as <- <-; apply emits_good_refl|]. apply Z.ltb_ge in Hi.
   destruct (last_opt (w_recs w)) as [r|]; [destruct (is_break_like r)|]; injection H as <- <-;
     try apply emits_good_refl; apply emits_good_one; (split; [exact Hi|exact I]).
 Qed.
@@ -1451,20 +1452,17 @@ Proof.
   - destruct (w_dev w); try (eapply flush_good; exact H); injection H as <- <-; apply emits_good_refl.
 Qed.
 
-Lemma reagent_good w a w' e : (0 <= rd_diti_reuse a)%Z -> (0 <= rd_multi_disp a)%Z ->
+Lemma reagent_good w a w' e :
   (exists z, rd_volume a = RVInt z) -> reagent_distribution w a = (w', e) -> emits_good w w'.
 Proof.
-  intros H1 H2 [z Hz] H. destruct e as [e|]; [rewrite (rc_reagent_err _ _ _ _ H); apply emits_good_refl|].
+  intros [z Hz] H. destruct e as [e|]; [rewrite (rc_reagent_err _ _ _ _ H); apply emits_good_refl|].
   destruct (rc_reagent_ok _ _ _ H)
     as (f & -> & _ & _ & _ & _ & _ & _ & _ & _ & _ & _ & _ & _ & Hvol & Hdr & _ & _ & Hm1 & Hm2 & Hns & _ &
-        P1 & P2 & P3 & P4 & Hv0 & _ & _ & _ & PX).
+        P1 & P2 & P3 & P4 & Hv0 & _ & _ & _ & PX & C1 & C2).
   rewrite Hz in Hvol. apply emits_good_one. split; [|exists z; exact Hvol]. cbn [rec_valid].
   split; [exact Hns|]. split.
   - split; [exact P1|]. split; [exact P2|]. split; [exact P3|]. split; [exact P4|].
-    split; [rewrite Hdr; exact H1|]. split; [|exact PX].
-    destruct (Qlt_le_dec (w_max w) (inject_Z (rd_multi_disp a) * pynum_q (r_volume f))) as [Hlt|Hle].
-    + destruct (Hm2 Hlt) as (_ & _ & _ & _ & Hr). lia.
-    + rewrite (Hm1 Hle). exact H2.
+    split; [exact C1|]. split; [exact C2|exact PX].
   - rewrite Hvol. rewrite Hvol in Hv0. cbn [pynum_q] in Hv0. change 0 with (inject_Z 0) in Hv0.
     rewrite <- Zle_Qle in Hv0. exact Hv0.
 Qed.
@@ -1564,10 +1562,10 @@ Proof.
 Qed.
 
 Lemma distribute_good s ks kd dwells a s' e :
-  (0 <= d_diti_reuse a)%Z -> (0 <= d_multi_disp a)%Z -> (exists z, d_volume a = RVInt z) ->
+  (exists z, d_volume a = RVInt z) ->
   distribute s ks kd dwells a = (s', e) -> emits_good (st_wl s) (st_wl s').
 Proof.
-  intros H1 H2 H3. unfold distribute. cbv zeta. intro H.
+  intros H3. unfold distribute. cbv zeta. intro H.
   repeat match type of H with
          | context [match ?x with _ => _ end] => destruct x eqn:?
          | context [if ?b then _ else _] => destruct b eqn:?
@@ -1580,15 +1578,16 @@ Proof.
   all: try exact Hc.
   all: match goal with Er : reagent_distribution _ _ = (_, _) |- _ =>
          eapply emits_good_trans; [exact Hc|];
-         eapply reagent_good; [| | |exact Er]; [exact H1|exact H2|exact H3] end.
+         eapply reagent_good; [|exact Er]; exact H3 end.
 Qed.
 
-(** the arguments that go into a record unvalidated: DiTi index of set_diti, diti_reuse and multi_disp of
-    distribute; and an int volume of distribute (a float volume is written as Python's repr) *)
+(** the only argument the text-level theorems restrict: an int volume of distribute (a float volume is written
+    as Python's repr).  The DiTi index of set_diti and diti_reuse / multi_disp of distribute need no hypothesis:
+    the methods reject negative values (since /repo commit 26768d9, finding F21), so an accepted call has
+    non-negative ones and a rejected call appends nothing. *)
 Definition op_text_ok (o : op) : Prop :=
   match o with
-  | ODistribute _ _ _ a => (0 <= d_diti_reuse a)%Z /\ (0 <= d_multi_disp a)%Z /\ exists z, d_volume a = RVInt z
-  | OSetDiti i => (0 <= i)%Z
+  | ODistribute _ _ _ a => exists z, d_volume a = RVInt z
   | _ => True
   end.
 
@@ -1606,13 +1605,13 @@ Proof.
   - eapply aspirate_good; exact H.
   - eapply dispense_good; exact H.
   - eapply transfer_good; exact H.
-  - destruct Hok as (A & B & C). eapply distribute_good; eassumption.
+  - eapply distribute_good; eassumption.
   - eapply on_wl_good; [|exact H]. intros w w' e0 E. eapply comment_good; exact E.
   - eapply on_wl_good; [|exact H]. intros w w' e0 E. eapply wash_good; exact E.
   - eapply on_wl_good; [|exact H]. apply decontaminate_good.
   - eapply on_wl_good; [|exact H]. apply flush_good.
   - eapply on_wl_good; [|exact H]. apply commit_good.
-  - eapply on_wl_good; [|exact H]. intros w w' e0 E. eapply set_diti_good; eassumption.
+  - eapply on_wl_good; [|exact H]. intros w w' e0 E. eapply set_diti_good; exact E.
 Qed.
 
 Theorem run_good ops : forall s, forallb wl_op ops = true -> Forall op_text_ok ops ->
@@ -1664,4 +1663,88 @@ Proof.
   intros Hgood Hrecs Hops Hok Htx Hall.
   destruct (run_records_valid s0 ops Hrecs Hops Htx) as [Hv Hi].
   apply run_text_bound; assumption.
+Qed.
+
+(* ------------------------------------------------------------------------------------------ *)
+(** * C09 for [distribute]: the records it appends (comments, then one R record through
+      [reagent_distribution]) are read by the independent parser; no hypothesis on the arguments *)
+
+Lemma appends_parsable_trans w1 w2 w3 :
+  rc_appends_parsable w1 w2 -> rc_appends_parsable w2 w3 -> rc_appends_parsable w1 w3.
+Proof.
+  intros (n1 & E1 & B1) (n2 & E2 & B2). exists (n1 ++ n2)%list. split.
+  - rewrite E2, E1, app_assoc. reflexivity.
+  - apply Forall_app. split; [exact B1|exact B2].
+Qed.
+
+Lemma distribute_parsable s ks kd dwells a s' e :
+  distribute s ks kd dwells a = (s', e) -> rc_appends_parsable (st_wl s) (st_wl s').
+Proof.
+  unfold distribute. cbv zeta. intro H.
+  repeat match type of H with
+         | context [match ?x with _ => _ end] => destruct x eqn:?
+         | context [if ?b then _ else _] => destruct b eqn:?
+         end;
+    injection H as <- <-; cbn [st_wl set_wl set_lw]; rewrite ?st_wl_condense; cbn [st_wl set_wl set_lw];
+    try apply rc_appends_none.
+  all: match goal with Ec : comment _ _ = (_, _) |- _ =>
+         rewrite ?st_wl_condense in Ec; cbn [st_wl set_wl set_lw] in Ec;
+         pose proof (rc_grammar_comment _ _ _ _ Ec) as Hc end.
+  all: try exact Hc.
+  all: match goal with Er : reagent_distribution _ _ = (_, _) |- _ =>
+         eapply appends_parsable_trans; [exact Hc|]; eapply rc_grammar_reagent; exact Er end.
+Qed.
+
+(** an accepted [distribute]: comment records, then the R record, which parses back to the arguments *)
+Lemma distribute_end_to_end s ks kd dwells a s' : distribute s ks kd dwells a = (s', None) ->
+  exists Ls Ld cs f p,
+    nth_error (st_lw s) ks = Some Ls /\ nth_error (st_lw s) kd = Some Ld /\
+    w_recs (st_wl s') = (w_recs (st_wl s) ++ cs ++ [RR f])%list /\ Forall rc_parsable cs /\
+    parse_record (render (RR f)) = Some (PR p) /\
+    pr_src_label p = lw_name Ls /\ pr_dst_label p = lw_name Ld /\
+    d_src_id a = PStr (pr_src_id p) /\ d_src_type a = PStr (pr_src_type p) /\
+    d_dst_id a = PStr (pr_dst_id p) /\ d_dst_type a = PStr (pr_dst_type p) /\
+    pr_volume p = render_pynum (r_volume f) /\
+    match d_volume a with
+    | RVInt z => r_volume f = PyI z
+    | RVFloat x => exists q, x = XQ q /\ r_volume f = PyF q
+    | RVBad => False
+    end /\
+    d_liquid_class a = PStr (pr_liquid_class p) /\
+    Z.of_N (pr_diti_reuse p) = d_diti_reuse a /\
+    Z.of_N (pr_multi_disp p) = r_multi_disp f /\ (r_multi_disp f <= d_multi_disp a)%Z /\
+    d_direction a = (if pr_direction p then "right_to_left" else "left_to_right")%string.
+Proof.
+  unfold distribute. cbv zeta. intro H.
+  repeat match type of H with
+         | context [match ?x with _ => _ end] => destruct x eqn:?
+         | context [if ?b then _ else _] => destruct b eqn:?
+         end;
+    try discriminate H.
+  all: injection H as <-; subst.
+  all: cbn [st_wl set_wl set_lw]; rewrite ?st_wl_condense; cbn [st_wl set_wl set_lw].
+  all: match goal with Ec : comment _ _ = (_, _) |- _ =>
+         rewrite ?st_wl_condense in Ec; cbn [st_wl set_wl set_lw] in Ec;
+         destruct (rc_grammar_comment _ _ _ _ Ec) as (cs & Hcs & Hcp) end.
+  all: match goal with Er : reagent_distribution _ _ = (_, None) |- _ =>
+         destruct (rc_reagent_end_to_end _ _ _ Er) as (f & p & Hrec & Hp & E1 & E2 & E3 & _ & _ & E6 & E7 & E8 &
+           _ & _ & E11 & E12 & E13 & E14 & E15 & _);
+         destruct (rc_reagent_ok _ _ _ Er) as (f' & _ & Hrec' & Hok) end.
+  all: assert (Ef : f' = f)
+         by (rewrite Hrec in Hrec'; apply app_inv_head in Hrec'; injection Hrec' as Ef; symmetry; exact Ef).
+  all: subst f';
+       destruct Hok as (_ & _ & _ & _ & _ & _ & _ & _ & _ & _ & _ & Hvol & _ & _ & _ & M1 & M2 & _);
+       cbn [rd_src_label rd_dst_label rd_src_id rd_src_type rd_dst_id rd_dst_type rd_volume rd_liquid_class
+            rd_diti_reuse rd_multi_disp rd_direction] in *.
+  all: injection E1 as E1; injection E6 as E6.
+  all: do 2 eexists; exists cs, f, p.
+  all: split; [reflexivity|]; split; [reflexivity|].
+  all: split; [rewrite Hrec, Hcs, <- app_assoc; reflexivity|].
+  all: split; [exact Hcp|]; split; [exact Hp|].
+  all: split; [symmetry; exact E1|]; split; [symmetry; exact E6|].
+  all: repeat (split; [assumption|]).
+  all: split; [|assumption].
+  all: match type of M1 with (?lhs <= ?rhs -> _) => destruct (Qlt_le_dec rhs lhs) as [L|L] end.
+  all: try (destruct (M2 L) as (_ & _ & _ & _ & N); lia).
+  all: rewrite (M1 L); lia.
 Qed.
